@@ -66,7 +66,11 @@ def compare_text(ctx, text, tag, expected=None, oracle=None):
 
 def objdump_case(ctx, nbytes, tag="real-objdump-random-bytes"):
     g = ctx.g
-    path = objfuzz.assemble(ctx.scratch, [(".text", objfuzz.random_bytes(g, nbytes))])
+    byts = objfuzz.random_bytes(g, nbytes)
+    secs = [(".text", byts)]
+    if g.chance(0.5):
+        secs.append((".text.startup", list(byts[: g.int(1, len(byts))])))   # addresses restart: repeated lines
+    path = objfuzz.assemble(ctx.scratch, secs)
     rc, out, err = objfuzz.objdump(path)
     kinds = [objfuzz.classify(l) for l in out.split("\n")]
     for k in kinds:
